@@ -80,13 +80,46 @@ func (it *Interp) drop() {
 
 func (it *Interp) Reset() { it.drop() }
 
+// longName is the deterministic resource name of n bytes that the token R<n> stands for.
+func longName(n int) string {
+	b := make([]byte, n)
+	for i := range b {
+		b[i] = byte(97 + (i+i/26)%26)
+	}
+	return string(b)
+}
+
+func resOfTok(r string) string {
+	if strings.HasPrefix(r, "R") {
+		if n, err := strconv.ParseUint(r[1:], 10, 64); err == nil {
+			return longName(int(n))
+		}
+	}
+	return r
+}
+
+// showRes prints long names as R<n> (if it is that name) or X<len>:<hash>.
+func showRes(r string) string {
+	if len(r) > 64 {
+		if r == longName(len(r)) {
+			return fmt.Sprintf("R%d", len(r))
+		}
+		var h uint64
+		for i := 0; i < len(r); i++ {
+			h = (h*31 + uint64(r[i])) % 4294967296
+		}
+		return fmt.Sprintf("X%d:%d", len(r), h)
+	}
+	return r
+}
+
 func parseItem(tok string) *base.MetricItem {
 	p := strings.Split(tok, ":")
 	if len(p) != 9 {
 		panic("bad item " + tok)
 	}
 	return &base.MetricItem{
-		Resource: p[0], PassQps: vh.U(p[1]), BlockQps: vh.U(p[2]), CompleteQps: vh.U(p[3]), ErrorQps: vh.U(p[4]),
+		Resource: resOfTok(p[0]), PassQps: vh.U(p[1]), BlockQps: vh.U(p[2]), CompleteQps: vh.U(p[3]), ErrorQps: vh.U(p[4]),
 		AvgRt: vh.U(p[5]), OccupiedPassQps: vh.U(p[6]), Concurrency: uint32(vh.U(p[7])), Classification: int32(vh.I(p[8])),
 	}
 }
@@ -97,7 +130,7 @@ func showItems(items []*base.MetricItem, err error) string {
 	}
 	xs := make([]string, 0, len(items))
 	for _, m := range items {
-		xs = append(xs, fmt.Sprintf("%d:%s:%d:%d:%d:%d:%d:%d:%d:%d", m.Timestamp, m.Resource, m.PassQps, m.BlockQps,
+		xs = append(xs, fmt.Sprintf("%d:%s:%d:%d:%d:%d:%d:%d:%d:%d", m.Timestamp, showRes(m.Resource), m.PassQps, m.BlockQps,
 			m.CompleteQps, m.ErrorQps, m.AvgRt, m.OccupiedPassQps, m.Concurrency, m.Classification))
 	}
 	return vh.List(xs)
@@ -261,6 +294,8 @@ func (it *Interp) Step(t []string, op string) string {
 		res := t[4]
 		if res == "*" {
 			res = ""
+		} else {
+			res = resOfTok(res)
 		}
 		return showItems(it.searcher(t[1]).FindByTimeAndResource(vh.U(t[2]), vh.U(t[3]), res))
 	case "log.from":
